@@ -1,2 +1,4 @@
-import Mitx.Model.Munkres
-import Mitx.Munkres.Square
+import Mitx.Props.C03
+import Mitx.Props.C06
+import Mitx.Props.C10
+import Mitx.Props.C17
